@@ -693,6 +693,42 @@ def run_population(ctx, pym, cs, pop):
     ctx.count('hist:populations')
 
 
+RESIZE_TRIPLE = ('FilterConv.set_filter_radius', 'response = convolution with the re-sized kernel',
+                 'radius changes the kernel shape after construction')
+
+
+def probe_resize(ctx, pym):
+    """candidate finding NEW_C09_set_filter_radius_resize: set_filter_radius after construction with a radius of another
+    int(r/dx) leaves pad sizes / index arrays stale.  Outside the generated class (see assumptions); the observation is
+    recorded, and reported through the violation protocol only once the triple is registered in known_findings.json."""
+    from scipy.signal import convolve as sconv
+    d = pym.DomainDefinition(3, 3)
+    x = np.arange(9.0)
+    sx = pym.Signal('x', x)
+    m = pym.FilterConv(sx, domain=d, radius=1.5)
+    m.response()
+    ctx.search_evaluations += 1
+    try:
+        m.set_filter_radius(2.5)
+        m.response()
+        y = np.array(m.sig_out[0].state, dtype=float)
+        w = np.array(m.weights)
+        p = [k // 2 for k in w.shape]
+        xp = np.pad(x[d.elements], [(p[0], p[0]), (p[1], p[1]), (p[2], p[2])], mode='symmetric')
+        yref = np.zeros(9)
+        yref[d.elements] = sconv(xp, w, mode='valid')
+        ok = y.shape == yref.shape and bool(np.max(np.abs(y - yref)) <= 1e-9 * 8)
+        got = y.tolist()
+    except Exception as e:   # noqa
+        ok, got, yref = False, repr(e)[:200], np.zeros(0)
+    registered = any(f.get('status') == 'known' and (f['call_site'], f['predicate'], f['input_class']) == RESIZE_TRIPLE
+                     for f in ctx.findings)
+    ctx.extra['set_filter_radius_resize'] = 'consistent' if ok else ('stale padding (registered finding)' if registered
+                                                                     else 'stale padding (candidate finding, not registered)')
+    if not ok and registered:
+        ctx.violation('impl-violates', *RESIZE_TRIPLE, dict(grid=[3, 3, 0], radius0=1.5, radius1=2.5), expected=yref.tolist(), got=got)
+
+
 def interior_of(grid):
     nx, ny, nz = grid
     n1z = max(nz, 1)
@@ -906,14 +942,23 @@ def run(ctx):
                 '4-tuples x 2-D grids <=3x2 x pad sizes {0,1,n,n+2}); np.pad 1-D index semantics on n<=6 x pads<=2n+3; responses/'
                 'sensitivities with integer or dyadic normalised kernels and integer fields incl. override_values; radius '
                 'kernels 0.3..domain+1.5 in relative/absolute units; DensityFilter H/Hs/response/sensitivity incl. nonpadding; '
-                'malformed constructor calls (exception class only).  A case is non-trivial when something is padded / the '
+                'malformed constructor calls (exception class only); histories / populations (Model/FiltHist.v): 5 deterministic '
+                'populations on every seed + random ones: plain and nonpadding DensityFilters of equal (size, radius) on one shared '
+                'DomainDefinition object and on an equal second one plus FilterConv modules (weights / radius, different boundary '
+                'modes) on one shared input signal, constructed and evaluated in interleaved order, earlier modules re-evaluated '
+                'after later ones exist; FilterConv: override_values (mask/ints/point/slice), override_padded_values '
+                '(ints/meshgrid box/empty) and set_filter_radius (kernel shape preserved) called AFTER responses / get_padded_vector, '
+                'every later response and padded vector compared with `frun` / `drun` and with a numpy reference.  A case is non-trivial when something is padded / the '
                 'filter is not the identity; distinct by (kind, grid, pads or kernel shape, modes, data hash)')
     ctx.assumptions += [
         '2-D domains (nelz = 0) are used with 2-D kernels (z-width 1); a z-thick kernel on a 2-D domain is wider than the padded '
         'domain and outside the property',
         'scipy.signal.convolve/correlate are modelled by their defining sums (validated toleranced; FFT switch allowed)',
         'radii are generated away from the float-rounding boundary of int((r-1e-10*dx)/dx) (model evaluates that in exact Q)',
-        'theorems about averages/bounds are over the reals; floats are tied by 1e-9 relative comparison in exact Q']
+        'theorems about averages/bounds are over the reals; floats are tied by 1e-9 relative comparison in exact Q',
+        'set_filter_radius after construction is generated only with radii that keep the kernel shape (pad sizes and index arrays are '
+        'computed once in _prepare; a radius with another int(r/dx) makes kernel and padding inconsistent: np.add.at raises or '
+        'broadcasts; the docstring does not offer re-sizing, so this is outside the property)']
     ctx.trusted += ['modelled rather than verified: numpy fancy indexing x[el3d_pad], np.add.at scatter, scipy sparse matvec '
                     '(validated by correspondence)',
                     'math.sqrt (harness) and np.sqrt (implementation) are the same correctly rounded IEEE function: the cone '
@@ -1065,6 +1110,8 @@ def run(ctx):
         run_population(ctx, pym, cs, pop)
     for t in range(6 if quick else 60):
         run_population(ctx, pym, cs, random_population(rng, t))
+
+    probe_resize(ctx, pym)
 
     # ---- malformed stream: exception class only
     for kind, shape in (('both', (3, 3)), ('neither', None), ('even', (2, 3)), ('even', (3, 4)), ('even', (3, 3, 2)),
